@@ -295,6 +295,9 @@ class Region:
                 if flip:
                     allowed = frozenset(_MIR[r] for r in allowed)
                 return ("rel", x, y, allowed)
+        if base in ("Eq", "Ne") and a[0] == "agg" and b[0] == "agg" and a[1] == b[1] and a[3] != b[3]:
+            # two values of one enum in different variants (None vs Some(..)) are never equal
+            return C(0 if base == "Eq" else 1)
         if base in REL:
             # bool == const
             if base in ("Eq", "Ne") and (a[0] == "c" or b[0] == "c"):
